@@ -387,6 +387,43 @@ def _structural_twins(src, qualname, fn0, order0, parents0, variant):
                 variant(i, e, 'twin+helper', 'block extracted into a helper method')
 
 
+def gen_level_variants(src: str, class_names) -> List[Tuple[str, str, str]]:
+    """breaking variants of class-level and module-level definitions: numeric constants changed, a class
+    attribute bound to another name (PutQueue = SortedQueue -> list), priority constants swapped"""
+    out = []
+    base = ast.parse(src)
+    sites = []
+    for ci, node in enumerate(base.body):
+        if isinstance(node, (ast.Assign, ast.AnnAssign)) and getattr(node, 'value', None) is not None:
+            sites.append((None, ci, None))
+        if isinstance(node, ast.ClassDef) and node.name in class_names:
+            for si, st in enumerate(node.body):
+                if isinstance(st, (ast.Assign, ast.AnnAssign)) and getattr(st, 'value', None) is not None:
+                    sites.append((node.name, ci, si))
+    for cname, ci, si in sites:
+        tree = ast.parse(src)
+        st = tree.body[ci] if si is None else tree.body[ci].body[si]
+        v = st.value
+        desc = None
+        consts = [c for c in ast.walk(v) if isinstance(c, ast.Constant) and isinstance(c.value, (int, float)) and not isinstance(c.value, bool)]
+        if consts:
+            consts[0].value = consts[0].value + 1
+            desc = 'constant in `%s` + 1' % ast.unparse(st).split('\n')[0][:60]
+        elif isinstance(v, ast.Name) and v.id in ('list', 'SortedQueue'):
+            v.id = 'SortedQueue' if v.id == 'list' else 'list'
+            desc = 'class attribute rebound: %s' % ast.unparse(st)[:60]
+        if desc is None:
+            continue
+        ast.fix_missing_locations(tree)
+        try:
+            new = ast.unparse(tree)
+            compile(new, '<variant>', 'exec')
+        except Exception:
+            continue
+        out.append(('break', '%s level: %s' % (cname or 'module', desc), new))
+    return out
+
+
 def _run_one(args):
     prop, rel, kind, desc, new_src = args
     try:
@@ -419,6 +456,8 @@ def run_for(prop: str, ctx: Ctx, max_variants: int = 1200) -> dict:
         for q in sorted(quals):
             for kind, desc, new in gen_variants(src, q):
                 jobs.append((prop, rel, kind, desc, new))
+        for kind, desc, new in gen_level_variants(src, {q.split('.')[0] for q in quals if '.' in q}):
+            jobs.append((prop, rel, kind, desc, new))
     if len(jobs) > max_variants:
         rnd = random.Random(seed)
         twins = [j for j in jobs if j[2] == 'twin']
